@@ -684,6 +684,7 @@ def batch_call_sequences(ctx):
             continue
         bound_before = {k: np.array(v, copy=True) for k, v in bp.bound_arguments.items()}
         ins1, ins2 = p.make_inputs(rng), p.make_inputs(rng)
+        ins2_all = ins2      # (the reference wants every placeholder of the graph, also one the program does not read)
         ins1 = {k: v for k, v in ins1.items() if k in names}
         ins2 = {k: v for k, v in ins2.items() if k in names}
         cases += 1
@@ -725,7 +726,7 @@ def batch_call_sequences(ctx):
         except Exception as e:   # noqa: BLE001
             fail("later-call-fails", f"{type(e).__name__}: {str(e)[:100]}")
             continue
-        ref2 = evaluate(expr, ins2)
+        ref2 = evaluate(expr, ins2_all)
         ok2 = all(close(r2[k], ref2[k]) for k in ref2) if isinstance(ref2, dict) else close(r2, ref2)
         same1 = all(close(r1b[k], r1[k]) for k in r1) if isinstance(r1, dict) else close(r1b, r1)
         if not ok2 or not same1:
